@@ -608,6 +608,17 @@ pub fn check(case: &Case, idx: u64, acc: &mut Acc) {
                 if !same {
                     acc.violate("resolve/Dual/differs-from-fresh-object", idx, cj(), json!({"step": si, "sites": tau, "left_n": l, "right_n": r}), json!("coefficients differ"));
                 }
+                // a clone solved differently must not disturb the object it was taken from
+                if a && si % 7 == 0 {
+                    let before: Vec<u64> = reused.c().as_ref().unwrap().iter().map(|v| v.to_bits()).collect();
+                    let mut cl = reused.clone();
+                    let yrev: Vec<f64> = y.iter().rev().cloned().collect();
+                    let _ = cl.csolve(tau, &yrev, *l, *r, false);
+                    let after: Vec<u64> = reused.c().as_ref().unwrap().iter().map(|v| v.to_bits()).collect();
+                    if before != after {
+                        acc.violate("resolve/clone-shares-state", idx, cj(), json!({"step": si}), json!("solving a clone changed the coefficients of the original"));
+                    }
+                }
                 acc.outcome(&(si, a, k));
             }
             if idx % 7 == 0 {
